@@ -122,6 +122,25 @@ func runC06(c *Ctx, r *Report) {
 	optionForwarding(c, r, "R-C06.10", constructorLogSpecs(), "AccessController")
 	mergedHeadObjects(c, r, "R-C06.11")
 	importRules(c, r, "C07", []string{"R-C07.1", "R-C07.2"}, "R-C06.14")
+	r.Doc("R-C06.16", "signing never creates a key: no key-creating call is reachable from the provider's Sign (an entry signed with a key made up on the spot carries a signature its published key does not verify)")
+	{
+		nsign := 0
+		for _, fn := range p.Fns {
+			if fn.Orig != nil || fn.Obj == nil || fn.Obj.Name() != "Sign" || !inPkgs(p, fn, "identityprovider") {
+				continue
+			}
+			nsign++
+			path := ""
+			for t, pth := range c.CG.Reach([]*Fn{fn}, false) {
+				if t.Obj != nil && t.Obj.Name() == "CreateKey" && p.firstParty(t.Obj.Pkg()) {
+					path = strings.Join(pth, " → ")
+				}
+			}
+			r.Check(path == "", "R-C06.16", r.Key("R-C06.16", fn, "no-key-creation", ""), fn.Body.Pos(), "no key-creating call is reachable from this signer",
+				"a key-creating call is reachable from the signer ("+path+"): when the identity's key is missing from the keystore the entry is signed with a fresh key, and neither Verify nor any other log accepts it")
+		}
+		r.Floor("R-C06.16", "signers in the identity provider", nsign, 1)
+	}
 	importRules(c, r, "C18", []string{"R-C18.2"}, "R-C06.14")
 	loopsComplete(c, r, "R-C06.13", func(fn *Fn) bool { return rootNamed(fn, "Join", "Verify", "difference") }, "candidates after the point where the loop stops are merged without having been validated")
 	errDiscipline(c, r, "R-C06.12", func(fn *Fn) bool {
@@ -314,6 +333,27 @@ func runC06(c *Ctx, r *Report) {
 		})
 	})
 	r.Floor("R-C06.7", "admission sites in difference", nset, 1)
+	// what difference hands back is the filtered collection (or nothing): never one of the collections it was given
+	walkNoLit(diff.Body, func(n ast.Node) bool {
+		ret, ok := n.(*ast.ReturnStmt)
+		if !ok {
+			return true
+		}
+		for _, res := range ret.Results {
+			bad := ""
+			ast.Inspect(res, func(m ast.Node) bool {
+				if id, ok := m.(*ast.Ident); ok {
+					if v, isVar := p.ObjOf(diff, id).(*types.Var); isVar && paramOf(p, diff.Root(), v) {
+						bad = id.Name
+					}
+				}
+				return bad == ""
+			})
+			r.Check(bad == "", "R-C06.7", r.Key("R-C06.7", diff, "return", ""), ret.Pos(), "difference returns the collection it filtered (or an empty one)",
+				"difference returns "+bad+", a collection it was handed, without filtering it: entries of a foreign log (and entries the heads do not cover) are merged on this path")
+		}
+		return true
+	})
 }
 
 // c063: the applied collection is the validated one; validators call CanAppend and Verify and record errors.
